@@ -409,9 +409,75 @@ func c05Gate(c *fw.Ctx, i int) {
 	c.Case(fmt.Sprintf("gate|%d", i), true)
 }
 
+// c05Reuse: QoS 2 handshake with identifier n completes; 1.5 s later the client starts a new QoS 2
+// publish with the same identifier (legal). A sweep whose time lies after the FIRST exchange's
+// deadline but before the second one's must not touch the second exchange: its PUBREL must still be
+// honoured (forwarded once, PUBCOMP).
+func c05Reuse(c *fw.Ctx, i int) {
+	fw.LogCase("C05 identifier reuse %d", i)
+	cl := kit.NewCluster(kit.WorkDir("c05r"))
+	defer cl.Close()
+	n, err := cl.AddNode(kit.NodeOpts{ID: 1})
+	if err != nil {
+		c.Inconclusive("cannot start node: " + err.Error())
+		return
+	}
+	w, err := n.MustConnect(kit.ConnectOpts{ClientID: "w", KeepAlive: 600, Clean: true})
+	if err != nil {
+		c.Inconclusive("connect: " + err.Error())
+		return
+	}
+	defer w.Close()
+	w.Sub1("c05/#", 0)
+	pub, err := n.MustConnect(kit.ConnectOpts{ClientID: "p", KeepAlive: 600, Clean: true})
+	if err != nil {
+		c.Inconclusive("connect: " + err.Error())
+		return
+	}
+	defer pub.Close()
+	id := 21 + i
+	if acked, err := pub.PublishID("c05/t", []byte("first"), 2, false, id, kit.DefaultWait); !acked {
+		c.Inconclusive(fmt.Sprintf("first handshake failed: %v", err))
+		return
+	}
+	t1 := time.Now()
+	time.Sleep(1500 * time.Millisecond)
+	from := pub.NumEvents()
+	pub.Send(kit.EncPublish("c05/t", []byte("second"), 2, false, false, id))
+	if _, _, err := pub.WaitFor(from, kit.DefaultWait, func(e kit.Event) bool { return e.Pkt.Type == kit.PUBREC && e.Pkt.ID == id }); err != nil {
+		c.Violation("pubrec-missing", "identifier reuse: no PUBREC for the second publish: "+err.Error(), nil)
+		return
+	}
+	t2 := time.Now()
+	if t2.Sub(t1) > 2500*time.Millisecond {
+		c.Observe("reuse_scenarios_without_verdict_slow_machine", 1)
+		return
+	}
+	// between the first exchange's deadline (t1+3 s at the latest) and the second one's (t2+3 s at the earliest)
+	n.Ack.Expire(t1.Add(3*time.Second + (t2.Sub(t1))/2))
+	from = pub.NumEvents()
+	pub.Send(kit.EncPubRel(id))
+	_, _, err = pub.WaitFor(from, kit.DefaultWait, func(e kit.Event) bool { return e.Pkt.Type == kit.PUBCOMP && e.Pkt.ID == id })
+	c.Observe("reuse_scenarios_judged", 1)
+	c.Case(fmt.Sprintf("reuse|%d", i), true)
+	if err != nil {
+		c.Violation("handshake-cancelled-by-stale-deadline", fmt.Sprintf("identifier reuse: the second QoS 2 publish with identifier %d (started 1.5 s after the first one completed) got no PUBCOMP for its PUBREL after a sweep that only the first exchange's deadline had passed", id), map[string]interface{}{"id": id})
+		return
+	}
+	got := 0
+	for _, r := range n.Log.Records() {
+		if string(r.Payload) == "second" {
+			got++
+		}
+	}
+	if got != 1 {
+		c.Violation("forwarding-missing", fmt.Sprintf("identifier reuse: the second publish was offered to the log %d time(s), want 1", got), nil)
+	}
+}
+
 func runC05(c *fw.Ctx) {
 	c.Level = "fault_enumeration"
-	c.Rule = "seeded packet sequences of 3-8 packets from a publisher (PUBLISH QoS 0/1/2 with fresh identifiers, PUBREL for a pending identifier, repeated PUBREL for a completed one, forced handshake-timeout sweep, repeated PUBLISH for a pending identifier as last packet) on 1-3 nodes that all host a matching subscriber; for each sequence EVERY single fault position is run on a fresh cluster: none, the k-th local log write fails for every k up to the number of writes of the fault-free run, each remote node unreachable, each remote node's log rejecting writes (thorough: also local x remote combinations). Observed with one global sequence counter: Append call/return per node, RPC call/return, packets read by the publisher. Oracle: an acknowledgement (PUBACK/PUBCOMP) is read only after a successful Append returned on every node, and never when a write failed; log offers per tag = completed PUBLISH->PUBREL handshakes (0 after PUBLISH alone or after a timed-out handshake, 1 after PUBREL, still 1 after repeated PUBREL). Gated scenarios: no acknowledgement while the log write is blocked. distinct = (nodes, sequence, fault); non-trivial = sequence contains a QoS>=1 forwarding"
+	c.Rule = "seeded packet sequences of 3-8 packets from a publisher (PUBLISH QoS 0/1/2 with fresh identifiers, PUBREL for a pending identifier, repeated PUBREL for a completed one, forced handshake-timeout sweep, repeated PUBLISH for a pending identifier as last packet) on 1-3 nodes that all host a matching subscriber; for each sequence EVERY single fault position is run on a fresh cluster: none, the k-th local log write fails for every k up to the number of writes of the fault-free run, each remote node unreachable, each remote node's log rejecting writes (thorough: also local x remote combinations). Observed with one global sequence counter: Append call/return per node, RPC call/return, packets read by the publisher. Oracle: an acknowledgement (PUBACK/PUBCOMP) is read only after a successful Append returned on every node, and never when a write failed; log offers per tag = completed PUBLISH->PUBREL handshakes (0 after PUBLISH alone or after a timed-out handshake, 1 after PUBREL, still 1 after repeated PUBREL). Gated scenarios: no acknowledgement while the log write is blocked. Identifier-reuse scenarios: a second QoS 2 publish reusing a completed handshake's identifier 1.5 s later survives a sweep placed between the two deadlines. distinct = (nodes, sequence, fault); non-trivial = sequence contains a QoS>=1 forwarding"
 	c.Assume("every node hosts a matching subscription known to the publisher's node (gossip barrier)")
 	c.Assume("a session dropped by the broker after a repeated PUBLISH for a pending identifier is accepted; nothing may be forwarded for it")
 	nSeq := c.Pick(36, 500)
@@ -494,6 +560,14 @@ func runC05(c *fw.Ctx) {
 	run(faulty)
 	for i := 0; i < c.Pick(6, 40); i++ {
 		c05Gate(c, i)
+	}
+	{
+		var wg sync.WaitGroup
+		for i := 0; i < c.Pick(3, 12); i++ {
+			wg.Add(1)
+			go func(i int) { defer wg.Done(); c05Reuse(c, i) }(i)
+		}
+		wg.Wait()
 	}
 	if len(base) > 0 {
 		c.Sample(map[string]interface{}{"nodes": base[0].nNodes, "packets": fmt.Sprint(base[0].seq), "fault_positions": attempts[0]})
